@@ -2,21 +2,54 @@
 
 Tie: exact correspondence of Step.get_map (all kinds) and of the effect of the step (apply) with
 lean/PM/Step.lean; Transform.mapping = the list of the recorded steps' maps.
+Whole histories (`check_history`): `tr.mapping.map` / `map_result` at every position of the first document with both
+association sides against the model's `Mapping.map` / `mapResult` and its folds `mapFold` / `deletedFold` / `coveredFold`
+(driver request `historyMap`, exact), against the composition of the individual maps, against the token picture (left
+side: the token before the mapped position; right side: the token after it) and for monotonicity.
 Search: for every applied step (random primitive steps and every step emitted by every high-level
 Transform operation) and every old position: size delta = sum(new - old) over the map's ranges and
 every token outside the replaced ranges is found unchanged at the mapped position.
 """
 from prosemirror.transform import AddMarkStep, RemoveMarkStep  # noqa: E402
-from prosemirror.transform import Transform
+from prosemirror.transform import ReplaceAroundStep, ReplaceStep, Transform
 
 from .. import core, gen, ops, schemas
 from ..codec import doc_tokens, step_map
 from ..core import outcome
 
 
-def check_step(ctx, info, doc, step, res_doc, origin):
+def _spine(frag, left):
+    d, n = 0, (frag.first_child if left else frag.last_child)
+    while n is not None and not n.is_leaf and not n.is_text:
+        d += 1
+        n = n.first_child if left else n.last_child
+    return d
+
+
+def around_hyps(step):
+    """the executable side conditions of the C03 theorems (lean/PM/MapFold.lean: aroundWFB, aroundOKB, gapSepB, and noTouch of
+    the step's map) re-stated on the real step"""
+    rg = list(step.get_map().ranges)
+    no_touch = all(rg[j + 1] <= 0 or rg[i] + rg[i + 1] != rg[j] for i in range(0, len(rg), 3) for j in range(0, len(rg), 3))
+    sl = step.slice
+    wf = (sl.open_start <= _spine(sl.content, True) and sl.open_end <= _spine(sl.content, False) and step.insert <= sl.size
+          and step.from_ <= step.gap_from <= step.gap_to <= step.to)
+    ok = wf and (step.gap_from < step.gap_to or step.gap_to < step.to or step.insert == sl.size)
+    sep = step.gap_from < step.gap_to or step.gap_to == step.to
+    return {"wf": wf, "ok": ok, "sep": sep, "noTouch": no_touch}
+
+
+def check_step(ctx, info, doc, step, res_doc, origin, sink=None):
     m = step.get_map()
     ranges = list(m.ranges)
+    if isinstance(step, ReplaceAroundStep) and sink is not None:
+        # are the hypotheses of the theorems met by this (successfully applied) step?  measured on the model and on the step
+        hy = around_hyps(step)
+        cls = "primitive" if origin == "primitive" else "operations"
+        for k in ("wf", "ok", "sep"):
+            ctx.count("around_step_hypothesis_%s:%s:%s" % (k, cls, hy[k]))
+        sink[0].append({"op": "aroundHyps", "step": info.step(step)})
+        sink[1].append(("aroundHyps", {"schema": info.name, "step": step.to_json()}, hy))
     old = doc_tokens(doc)
     new = doc_tokens(res_doc)
     replay = {"schema": info.name, "doc": doc.to_json(), "step": step.to_json(), "origin": origin, "map": ranges}
@@ -71,6 +104,155 @@ def check_step(ctx, info, doc, step, res_doc, origin):
                           dict(replay, pos=i + 1, mapped=j, token=list(tok), found=list(new[j - 1]) if 1 <= j <= len(new) else None))
             return
 
+    # the deleted flag of map_result on both sides: true iff the step replaced the token on the asked side of the position
+    # (Props/C03.lean: step_deleted_iff, replace_deleted_rule, replaceAround_deleted_rule); on the right side only for maps
+    # where no range ends at the start of a range with a non-empty old side (deleted_right_needs_noTouch)
+    touch_free = all(ranges[j + 1] <= 0 or ranges[i] + ranges[i + 1] != ranges[j]
+                     for i in range(0, len(ranges), 3) for j in range(0, len(ranges), 3))
+    for a in ((-1, 1) if ranges else ()):     # an empty map never reports anything (markup_map_both_sides)
+        if a > 0 and not touch_free:
+            ctx.count("deleted_flag_right_touching_ranges_skipped")
+            continue
+        for p in range(len(old) + 1):
+            r = m.map_result(p, a)
+            ctx.count("deleted_flag_positions")
+            if bool(r.deleted):
+                ctx.count("deleted_flag_true")
+            if bool(r.deleted) != ((p - 1 if a < 0 else p) in covered) or r.pos != m.map(p, a):
+                ctx.violation("deleted-flag", "map_result(pos, assoc).deleted of a step's map is not 'the step replaced the token on the "
+                              "asked side of the position' (or map_result and map disagree on the position)",
+                              dict(replay, pos=p, assoc=a, deleted=bool(r.deleted), result_pos=r.pos, mapped=m.map(p, a)))
+                return
+
+
+def _same_tok(a, b, exact):
+    """identity when only replace-family steps were recorded; structure and text otherwise (markup steps change markup)"""
+    if exact:
+        return a == b
+    return a[0] == b[0] and (b[0] != "u" or a[1] == b[1])
+
+
+def _around_ok(step):
+    """the side condition of the right-side theorems (Props/C03.lean AroundOK): not the touching-empty-gap shape"""
+    if not isinstance(step, ReplaceAroundStep):
+        return True
+    return step.gap_from < step.gap_to or step.gap_to < step.to or step.insert == step.slice.size
+
+
+def check_history(ctx, info, d, tr, kind, reqs, metas):
+    """the whole history of a transform: `tr.mapping` asked at every position of the first document, both sides
+    (Props/C03.lean: mapping_map_eq_mapFold, mapping_mapResult_eq_folds, transform_mapped_position_same_content[_left],
+    transform_deleted_iff_covered, transform_mapping_mono, transform_size_delta, transform_surviving_token_width)"""
+    if not tr.steps:
+        return
+    maps = list(tr.mapping.maps)
+    old = doc_tokens(d)
+    new = doc_tokens(tr.doc)
+    n = len(old)
+    exact = all(isinstance(s, (ReplaceStep, ReplaceAroundStep)) for s in tr.steps)
+    right_ok = all(_around_ok(s) for s in tr.steps)
+    replay = {"schema": info.name, "doc": d.to_json(), "steps": [s.to_json() for s in tr.steps], "origin": kind,
+              "maps": [list(m.ranges) for m in maps]}
+    ctx.case(["history", info.name, d.to_json(), [s.to_json() for s in tr.steps]],
+             sample={"op": "history mapping both sides", "schema": info.name, "origin": kind, "steps": [s.to_json() for s in tr.steps]})
+    ctx.count("histories:" + kind)
+    ctx.count("history_steps:%s" % (len(maps) if len(maps) < 5 else "5+"))
+    if len(maps) >= 2 and sum(1 for m in maps if m.ranges) >= 2:
+        ctx.count("histories_with_two_or_more_nonempty_maps")
+
+    def covers(m, tok):
+        rg = m.ranges
+        return any(rg[i] <= tok < rg[i] + rg[i + 1] for i in range(0, len(rg), 3))
+
+    def no_touch(m):
+        rg = m.ranges
+        return all(rg[j + 1] <= 0 or rg[i] + rg[i + 1] != rg[j] for i in range(0, len(rg), 3) for j in range(0, len(rg), 3))
+
+    touch_free = [no_touch(m) for m in maps]
+    exp = {"left": [], "right": [], "noTouch": touch_free}
+    images, covs = {}, {}
+    delta = sum(m.ranges[i + 2] - m.ranges[i + 1] for m in maps for i in range(0, len(m.ranges), 3))
+    if len(new) - len(old) != delta:
+        ctx.violation("history-size-delta", "the document size does not change by the sum of (new - old) over the ranges of all "
+                      "recorded maps", dict(replay, old_size=len(old), new_size=len(new), delta=delta))
+        return
+    for side, a in (("left", -1), ("right", 1)):
+        prev = None
+        for p in range(n + 1):
+            st1, q = outcome(lambda: tr.mapping.map(p, a))
+            st2, r = outcome(lambda: tr.mapping.map_result(p, a))
+            if st1 != "ok" or st2 != "ok":
+                ctx.violation("history-map-raises", "Transform.mapping.map / map_result raises on a position of the first document",
+                              dict(replay, pos=p, assoc=a))
+                return
+            # the composition of the individual maps, and the range-level reading of the flag, followed along
+            cur, cov, dele = p, False, False
+            for m in maps:
+                cov = cov or covers(m, cur - 1 if a < 0 else cur)
+                dele = dele or m.map_result(cur, a).deleted
+                cur = m.map(cur, a)
+            exp[side].append([q, cur, [r.pos, r.del_info, bool(r.deleted)], dele, cov])
+            images[(a, p)] = q
+            covs[(a, p)] = cov
+            ctx.count("history_positions:" + side)
+            if q != cur or r.pos != cur or bool(r.deleted) != dele:
+                ctx.violation("history-map-fold", "Transform.mapping does not map like the left-to-right composition of the recorded "
+                              "steps' maps with the same association side (position or deleted flag)",
+                              dict(replay, pos=p, assoc=a, mapped=q, result=[r.pos, r.del_info], composed=cur, composed_deleted=dele))
+                return
+            if prev is not None and prev > q:
+                ctx.violation("history-monotone", "Transform.mapping.map is not monotone in the position",
+                              dict(replay, pos=p, assoc=a, mapped=q, previous=prev))
+                return
+            prev = q
+            # the flag says: some step replaced the token on the asked side (mapped along)
+            if a < 0 or all(touch_free):
+                ctx.count("history_deleted_flag_checked:" + side)
+                if bool(r.deleted):
+                    ctx.count("history_deleted_flag_true:" + side)
+                if bool(r.deleted) != cov:
+                    ctx.violation("history-deleted-flag", "map_result(...).deleted of Transform.mapping is not 'some step replaced the "
+                                  "token on the asked side of the position'",
+                                  dict(replay, pos=p, assoc=a, deleted=bool(r.deleted), covered=cov))
+                    return
+            else:
+                ctx.count("history_deleted_flag_touching_ranges_skipped")
+            # token picture
+            if a < 0 and p >= 1 and not cov:
+                ctx.count("history_left_tokens")
+                if q != p:
+                    ctx.count("history_left_tokens_moved")
+                if not (1 <= q <= len(new) and _same_tok(new[q - 1], old[p - 1], exact)):
+                    ctx.violation("history-token-moved-left", "a token no step of the history replaced is not found before the position "
+                                  "mapped with assoc -1 through Transform.mapping",
+                                  dict(replay, pos=p, mapped=q, token=list(old[p - 1]),
+                                       found=list(new[q - 1]) if 1 <= q <= len(new) else None))
+                    return
+            if a > 0 and p < n and not cov and right_ok:
+                ctx.count("history_right_tokens")
+                if not (0 <= q < len(new) and _same_tok(new[q], old[p], exact)):
+                    ctx.violation("history-token-moved", "a token no step of the history replaced is not found after the position "
+                                  "mapped with assoc 1 through Transform.mapping",
+                                  dict(replay, pos=p, mapped=q, token=list(old[p]), found=list(new[q]) if 0 <= q < len(new) else None))
+                    return
+    for p in range(n + 1):
+        if images[(-1, p)] > images[(1, p)]:
+            ctx.violation("history-sides-order", "the assoc -1 image of a position lies right of its assoc 1 image",
+                          dict(replay, pos=p, left=images[(-1, p)], right=images[(1, p)]))
+            return
+        if images[(-1, p)] < images[(1, p)]:
+            ctx.count("history_positions_where_sides_differ")
+        # a token no step replaced occupies exactly [map(p, 1), map(p + 1, -1)) (transform_surviving_token_width)
+        if p < n and right_ok and not covs[(1, p)]:
+            ctx.count("history_surviving_token_width")
+            if covs[(-1, p + 1)] or images[(-1, p + 1)] != images[(1, p)] + 1:
+                ctx.violation("history-token-width", "the two association sides disagree on where a token that no step replaced is: "
+                              "map(p + 1, -1) is not map(p, 1) + 1",
+                              dict(replay, pos=p, right_image=images[(1, p)], left_image_of_next=images[(-1, p + 1)]))
+                return
+    reqs.append({"op": "historyMap", "maps": [step_map(m) for m in maps], "n": n})
+    metas.append(("historyMap", {"schema": info.name, "doc": d.to_json(), "steps": [s.to_json() for s in tr.steps]}, exp))
+
 
 def run(ctx):
     core.lean_phase(ctx)
@@ -107,12 +289,24 @@ def run(ctx):
             n0 = len(tr.steps)
             st, val, added = ops.run_op(tr, thunk)
             for k in range(n0, len(tr.steps)):
-                check_step(ctx, info, tr.docs[k], tr.steps[k], tr.docs[k + 1] if k + 1 < len(tr.docs) else tr.doc, name)
+                check_step(ctx, info, tr.docs[k], tr.steps[k], tr.docs[k + 1] if k + 1 < len(tr.docs) else tr.doc, name,
+                           sink=(reqs, metas))
         maps = [list(x.ranges) for x in tr.mapping.maps]
         exp = [list(s.get_map().ranges) for s in tr.steps]
-        if maps != exp or tr.mapping.from_ != 0 or tr.mapping.to != len(tr.steps):
-            ctx.violation("transform-mapping", "Transform.mapping is not the list of the recorded steps' maps",
+        if maps != exp or tr.mapping.from_ != 0 or tr.mapping.to != len(tr.steps) or tr.mapping.mirror:
+            ctx.violation("transform-mapping", "Transform.mapping is not the list of the recorded steps' maps (from 0 to the end, no mirrors)",
                           {"schema": info.name, "doc": d.to_json(), "steps": [s.to_json() for s in tr.steps], "maps": maps})
+        check_history(ctx, info, d, tr, "operations", reqs, metas)
+        # a history of random primitive steps (each generated against the current document, recorded iff it applies)
+        tr2 = Transform(d)
+        for _ in range(ctx.budget(3, 6)):
+            step = gen.gen_step(rng, info, tr2.doc, docs)
+            outcome(lambda: tr2.maybe_step(step))
+        if tr2.steps:
+            for st_ in tr2.steps:
+                reqs.append({"op": "getMap", "step": info.step(st_)})
+                metas.append(("getMap", {"schema": info.name, "step": st_.to_json()}, step_map(st_.get_map())))
+            check_history(ctx, info, d, tr2, "primitive", reqs, metas)
 
     def one_step(info, d, step):
         st, res = outcome(lambda: step.apply(d))
@@ -122,7 +316,7 @@ def run(ctx):
             reqs.append({"op": "getMap", "step": sj})
             metas.append(("getMap", {"schema": info.name, "step": step.to_json()}, step_map(m)))
         if st == "ok" and res.doc is not None:
-            check_step(ctx, info, d, step, res.doc, "primitive")
+            check_step(ctx, info, d, step, res.doc, "primitive", sink=(reqs, metas))
 
     fam = schemas.family()
     for si in range(ctx.budget(24, 60)):
